@@ -190,6 +190,23 @@ def streams(rng, tier):
                  judge=lambda op, impl, model, spec: "ok" if impl == f"{op.split(' ')[1]} | {op.split(' ')[1]}" else "violation",
                  rule="intshow: Int::try_from(v) through Display and through Token::Int's Display == the decimal text of v, for every boundary incl. -2^64 and 2^64-1")
     s2s.shrinkable = False
+    # Int compared with Int (what `assert_eq!(decoded, expected)`, a HashSet of Ints go through): equal exactly when the numbers are
+    near = sorted({x for b in gen.boundaries(64) for x in (b, -b, -1 - b, b - 1, -b - 2)} | {0, -1, 1, -2, 2**64 - 1, -2**64})
+    near = [v for v in near if -2**64 <= v <= 2**64 - 1]
+    eq_ops = []
+    for i, a in enumerate(near):
+        for b in (a, -1 - a, -a, a + 1, a - 1, near[(i * 7 + 3) % len(near)]):
+            if -2**64 <= b <= 2**64 - 1:
+                eq_ops.append(f"inteq {a} {b}")
+    eq_ops = list(dict.fromkeys(eq_ops))
+    def judge_eq(op, impl, model, spec):
+        w = op.split(" ")
+        same = int(w[1]) == int(w[2])
+        return "ok" if (impl == "eq sameHash" if same else impl.startswith("ne ")) else "violation"
+    s2e = Stream("int-equality", "hcore", eq_ops, model_ops=["nop"] * len(eq_ops), judge=judge_eq,
+                 rule="inteq a b: Int == Int (both directions, on values made by TryFrom and on values decoded from their encodings, and as HashSet membership) "
+                      "exactly when a == b; equal values hash alike")
+    s2e.shrinkable = False
     # Int <-> primitive conversions: oracle = plain integer arithmetic
     TR = dict({k: v for k, v in RANGE.items() if k != "int"}, u128=(0, 2**128 - 1), i128=(-2**127, 2**127 - 1))
     conv = []
@@ -257,7 +274,7 @@ def streams(rng, tier):
     s4 = Stream("typed-int-impls", "hcore", tops, model_ops=tmops, judge=judge_typed,
                 rule="tdec of usize/isize/NonZero*/Atomic*/Int/the eight fixed types on every (sign,width,argument) head: value iff representable (and non-zero for NonZero), position = head length")
     s4.shrinkable = False
-    return [s1, s2, s2t, s2p, s2i, s2s, s3, s4]
+    return [s1, s2, s2t, s2p, s2i, s2s, s2e, s3, s4]
 
 
 DT_ACC = {"u8": "u8", "u16": "u16", "u32": "u32", "u64": "u64", "i8": "i8", "i16": "i16", "i32": "i32", "i64": "i64", "int": "int"}
